@@ -114,6 +114,9 @@ pub fn eval(sc: &Scenario) -> CaseResult {
     if sc.ops.iter().any(|o| matches!(o, Op::LinkDown { from, .. } if *from > 100)) {
         r.classes.push("silent_spectator");
     }
+    if sc.ops.iter().any(|o| matches!(o, Op::Kill { .. })) {
+        r.classes.push("all_remotes_gone_survivor_plays_on");
+    }
     r
 }
 
@@ -135,7 +138,18 @@ pub fn gen(tier: Tier) -> BoxedStrategy<Scenario> {
                 sc.specs.clear();
             }
             // the bound on outgoing_local_inputs is for equal delays of a peer's local players (static)
-            match k % 4 {
+            match k % 5 {
+                4 => {
+                    // every remote peer disappears and the survivor plays on alone for a long time
+                    // (two-peer sessions: deaths in larger sessions are C10's space)
+                    sc.peers.truncate(2);
+                    sc.specs.retain(|s| s.host == 0);
+                    sc.links.clear();
+                    sc.notify_ms = 500;
+                    sc.timeout_ms = 2000;
+                    let tick = 100 + idx(t, (sc.ticks / 3) as usize) as u32;
+                    sc.ops.push(Op::Kill { tick, peer: 1 });
+                }
                 0 => sc.drain = false,
                 1 if !sc.specs.is_empty() => {
                     // a spectator that stops acknowledging: its outgoing link dies
@@ -161,7 +175,7 @@ pub fn run_prop(ctx: &Ctx) -> PropReport {
     let mut rep = PropReport::new("C18", "exploration");
     let tier = ctx.tier;
     rep.part(|| run_random(ctx, "long_runs",
-        "long histories (2000-2600 ticks quick, 6000-9000 thorough) over C01's topologies plus all-local sessions, a quarter with events never drained, a quarter with a spectator whose acknowledgements stop, a quarter with 40%-loss phases, desync detection mostly on with interval 1-2; after EVERY call the buffer sizes (verif-hooks accessor) must satisfy: events <= 100, outgoing_local_inputs == 0 (static equal delays), pending_output <= 2*window + 2*max_delay + 4 for player endpoints and <= 128 + window + max_delay + 3 for spectator endpoints, recv_inputs <= 2*window + 2, pending_checksums <= 33, local_checksum_history <= 33, send_queue <= 4 after a call; the second half's maximum must not exceed twice the first half's plus 8 (drift = leak: a leak grows linearly with the run length, fluctuations of a lossy link do not) under stationary schedules; a silent spectator must get exactly one Disconnected; non-trivial = >= 1000 frames simulated",
+        "long histories (2000-2600 ticks quick, 6000-9000 thorough) over C01's topologies plus all-local sessions, a fifth each with events never drained / a spectator whose acknowledgements stop / 40%-loss phases / the only remote peer dying early while the survivor plays on alone, desync detection mostly on with interval 1-2; after EVERY call the buffer sizes (verif-hooks accessor) must satisfy: events <= 100, outgoing_local_inputs == 0 (static equal delays), pending_output <= 2*window + 2*max_delay + 4 for player endpoints and <= 128 + window + max_delay + 3 for spectator endpoints, recv_inputs <= 2*window + 2, pending_checksums <= 33, local_checksum_history <= 33, send_queue <= 4 after a call; the second half's maximum must not exceed twice the first half's plus 8 (drift = leak: a leak grows linearly with the run length, fluctuations of a lossy link do not) under stationary schedules; a silent spectator must get exactly one Disconnected; non-trivial = >= 1000 frames simulated",
         || gen(tier), ctx.tier.pick(1500, 6000), eval));
     rep.floors.push(("long_runs".into(), 0.5));
     rep.assumptions = vec!["buffer sizes are read through the verif-hooks accessor after every advance_frame / poll_remote_clients call".into(), "bounds are derived from the code in props/c18.rs::bounds and stated there".into()];
